@@ -166,3 +166,6 @@ func (s *ScriptReader) Remaining() []byte { return s.Data[s.pos:] }
 func (s *ScriptReader) String() string {
 	return fmt.Sprintf("ScriptReader{len=%d chunks=%v eofWithLast=%v}", len(s.Data), s.Chunks, s.EOFWithLast)
 }
+
+// StackNow returns the current goroutine's stack (for use in recover blocks).
+func StackNow() string { return string(debug.Stack()) }
